@@ -195,7 +195,15 @@ Definition guard_op (σ : store V) (o : op) : gclass :=
                    | g => g end)
   | OReshape t dims _ =>
     on t (fun d => if negb (d_view d) && (size (shp (d_ap d)) =? size dims) && negb (d_len d =? size dims) && negb (is_scalar dims)
-                   then GLateRefusal else guard_transpose d)
+                   then GLateRefusal
+                   else match guard_transpose d with
+                        | GOk =>
+                          (* Reshape first moves a lazily transposed tensor physically: tensors sharing
+                             its storage see their elements move (as for Transpose) *)
+                          if is_some (d_old d)
+                             && (1 <? Z.of_nat (length (filter (fun x => Nat.eqb (d_buf x) (d_buf d)) (tens V σ))))
+                          then GAliasedStorage else GOk
+                        | g => g end)
   | OCopy dt st => on dt (fun d => on st (fun s => if after_vector_T d || after_vector_T s then GVectorAxes else guard_copy d s))
   | OSafeT t axes => on t (fun d => guard_safeT d axes)
   | OApiTranspose t axes =>
